@@ -200,6 +200,9 @@ func main() {
 		build(true)
 		return
 	}
+	if prop == "determinism" {
+		os.Exit(determinism(flag.Args()[1:]))
+	}
 	tier := *tierFlag
 	if tier == "" {
 		tier = envOr("VERIF_TIER", "quick")
@@ -242,8 +245,10 @@ func main() {
 	}
 	outDir := filepath.Join(verifDir, "build", "out", fmt.Sprintf("%s-%d", prop, os.Getpid()))
 	os.MkdirAll(outDir, 0o755)
-	if !*keep {
-		defer os.RemoveAll(outDir)
+	cleanup := func() {
+		if !*keep {
+			os.RemoveAll(outDir)
+		}
 	}
 	replayDir := filepath.Join(verifDir, "replays")
 	os.MkdirAll(replayDir, 0o755)
@@ -414,7 +419,11 @@ func main() {
 	}
 	fmt.Printf("%s tier=%s seed=%d runs=%d evals=%d distinct_traces=%d sigs=%d violations=%d known=%d wall=%.1fs\n",
 		prop, tier, seed, agg.Runs, agg.Evals, len(hashes), len(agg.Sigs), nviol, len(printedKnown), wall)
+	cleanup()
 	if exit == 1 {
+		for _, m := range internal {
+			fmt.Println("INTERNAL (besides the violation):", firstLines(m, 3))
+		}
 		os.Exit(1)
 	}
 	if len(internal) > 0 {
@@ -518,4 +527,103 @@ func doReplay(bin, prop, path string, verbose bool) int {
 		fmt.Printf("replay did not reproduce oracle=%s key=%s (other violations: %v)\n", res.Oracle, res.Key, res.Viols)
 	}
 	return 0
+}
+
+func firstLines(s string, n int) string {
+	l := strings.SplitN(s, "\n", n+1)
+	if len(l) > n {
+		l = l[:n]
+	}
+	return strings.Join(l, " | ")
+}
+
+// determinism: the same seeds executed in separate processes at GOMAXPROCS 1,
+// 4 and 16 (each run also re-executed in-process from its recorded tape) must
+// produce identical decision hashes.
+func determinism(propsList []string) int {
+	bin := build(false)
+	if len(propsList) == 0 {
+		for p := range props {
+			propsList = append(propsList, p)
+		}
+		sort.Strings(propsList)
+	}
+	runs := 60
+	if v := os.Getenv("VERIF_DET_RUNS"); v != "" {
+		runs, _ = strconv.Atoi(v)
+	}
+	seeds := []int{1, 7}
+	outDir := filepath.Join(verifDir, "build", "out", fmt.Sprintf("det-%d", os.Getpid()))
+	os.MkdirAll(outDir, 0o755)
+	defer os.RemoveAll(outDir)
+	rc := 0
+	for _, prop := range propsList {
+		for _, seed := range seeds {
+			type res struct {
+				hashes []string
+				err    string
+			}
+			gmps := []int{1, 4, 16, 2, 8}
+			results := make([]res, len(gmps))
+			var wg sync.WaitGroup
+			for i, g := range gmps {
+				wg.Add(1)
+				go func(i, g int) {
+					defer wg.Done()
+					out := filepath.Join(outDir, fmt.Sprintf("%s-%d-%d.jsonl", prop, seed, g))
+					env := []string{"VERIF_PROP=" + prop, "VERIF_SEED=" + strconv.Itoa(seed), "VERIF_RUN_START=0", "VERIF_RUN_STRIDE=1",
+						"VERIF_RUN_MAX=" + strconv.Itoa(runs), "VERIF_BUDGET_MS=600000", "VERIF_CANARY_EVERY=1", "VERIF_MAX_MINIMISE=0",
+						"VERIF_OUT=" + out, "GOMAXPROCS=" + strconv.Itoa(g), "VERIF_REPLAY_DIR=" + outDir}
+					err := runWorker(bin, env, 15*time.Minute, out+".log")
+					b, _ := os.ReadFile(out)
+					for _, line := range bytes.Split(b, []byte("\n")) {
+						var m struct {
+							Type   string   `json:"type"`
+							Msg    string   `json:"msg"`
+							Hashes []string `json:"hashes"`
+						}
+						if json.Unmarshal(line, &m) != nil {
+							continue
+						}
+						if m.Type == "error" {
+							results[i].err = m.Msg
+						}
+						if m.Type == "summary" {
+							results[i].hashes = m.Hashes
+						}
+					}
+					if results[i].hashes == nil && results[i].err == "" {
+						results[i].err = fmt.Sprintf("no summary (%v)", err)
+					}
+				}(i, g)
+			}
+			wg.Wait()
+			ok := true
+			for i, g := range gmps {
+				if results[i].err != "" {
+					fmt.Printf("DETERMINISM %s seed=%d GOMAXPROCS=%d: %s\n", prop, seed, g, firstLines(results[i].err, 2))
+					ok = false
+					continue
+				}
+				if len(results[i].hashes) != len(results[0].hashes) {
+					fmt.Printf("DETERMINISM %s seed=%d GOMAXPROCS=%d: %d runs vs %d\n", prop, seed, g, len(results[i].hashes), len(results[0].hashes))
+					ok = false
+					continue
+				}
+				for k := range results[i].hashes {
+					if results[i].hashes[k] != results[0].hashes[k] {
+						fmt.Printf("DETERMINISM %s seed=%d: run %d differs between GOMAXPROCS=%d and %d\n", prop, seed, k, gmps[0], g)
+						ok = false
+						break
+					}
+				}
+			}
+			if ok {
+				fmt.Printf("determinism %s seed=%d: %d runs x %d processes (GOMAXPROCS %v) x 2 executions identical\n", prop, seed, len(results[0].hashes), len(gmps), gmps)
+			} else {
+				rc = 2
+			}
+		}
+	}
+	return rc
 }
